@@ -15,15 +15,16 @@ pub fn gen_c15(rng: &mut Rng, run_seed: u64, miri: bool) -> Program {
     prog.pool_mode = *rng.pick(&[PoolMode::Warm, PoolMode::Fresh, PoolMode::Eager]);
     let healthy = prog.pool;
     prog.n_obj = 1 + healthy;
-    let variant = rng.below(11);
+    let variant = rng.below(12);
     let mut t0 = vec![];
     // sometimes some ordinary work on the victim first
     for _ in 0..rng.below(3) { let id = prog.add_op(0, Kind::Desync, Disp::None, vec![Step::Touch]); t0.push(TAct::Op(id)); }
     let mut old_future = None;
+    let mut drop_dead_stream = false;
     // sometimes a wake-up lands while the panicking body is executing: the future wakes itself without suspending, or an earlier
     // future of the same object left a waker behind that fires during the panicking job
     let wake_kind = rng.below(3);
-    if wake_kind == 2 && !matches!(variant, 2 | 3 | 8 | 10) { let id = prog.add_op(0, Kind::FutDesync, Disp::Detach, vec![Step::Touch, Step::StashWaker, Step::Touch]); t0.push(TAct::Op(id)); }
+    if wake_kind == 2 && !matches!(variant, 2 | 3 | 8 | 10 | 11) { let id = prog.add_op(0, Kind::FutDesync, Disp::Detach, vec![Step::Touch, Step::StashWaker, Step::Touch]); t0.push(TAct::Op(id)); }
     match variant {
         0 => { prog.template = "panic_in_desync_job"; let id = prog.add_op(0, Kind::Desync, Disp::None, vec![Step::Touch, Step::Panic]); t0.push(TAct::Op(id)); }
         1 => { prog.template = "panic_in_sync_closure"; let id = prog.add_op(0, Kind::Sync, Disp::None, vec![Step::Touch, Step::Panic]); t0.push(TAct::Op(id)); }
@@ -80,6 +81,27 @@ pub fn gen_c15(rng: &mut Rng, run_seed: u64, miri: bool) -> Program {
             prog.pipes.push(PipeDef { obj: 0, through: false, depth: 5, items, preloaded: 0, preclosed: false, mpsc: false, register_first: false, keep_waker: false, chain_to: None });
             t0.push(TAct::PipeCreate(0));
         }
+        11 => {
+            // The processing function of a pipe() panics, and the pipe holds the last strong reference to its target: the user has let
+            // go of the object itself. Afterwards the output stream of the dead pipe is dropped (which releases that last reference
+            // on the crate's internal disposal queue), and then a pipe on a healthy object is created, used and dropped.
+            prog.template = "panic_in_pipe_processing_pipe_holds_last_reference";
+            prog.mortal = Some(0);
+            let n = rng.range(1, 2) as usize;
+            let mut items = vec![];
+            prog.pusher.push(FAct::WaitThread0Done);
+            for k in 0..n {
+                let body = if k + 1 != n { vec![Step::Touch] } else if rng.chance(1, 2) { vec![Step::Touch, Step::Yield, Step::Panic] } else { vec![Step::Touch, Step::Panic] };
+                let id = prog.add_op(0, Kind::PipeItem, Disp::None, body);
+                prog.ops[id].pipe = Some(0);
+                items.push(id);
+                prog.pusher.push(FAct::Item(0));
+            }
+            prog.pipes.push(PipeDef { obj: 0, through: true, depth: 5, items, preloaded: 0, preclosed: false, mpsc: false, register_first: false, keep_waker: false, chain_to: None });
+            t0.clear();
+            t0.push(TAct::PipeCreate(0)); t0.push(TAct::StashStream(0)); t0.push(TAct::ReleaseMortal);
+            drop_dead_stream = true;
+        }
         9 => { prog.template = "panic_in_after_closure"; let id = prog.add_op(0, Kind::After, Disp::Detach, vec![Step::Touch, Step::Panic]); let gate = prog.new_gate(); prog.ops[id].gate = Some(gate); t0.push(TAct::Op(id)); }
         _ => {
             prog.template = "panic_with_older_future_pending";
@@ -107,6 +129,7 @@ pub fn gen_c15(rng: &mut Rng, run_seed: u64, miri: bool) -> Program {
         t0.push(TAct::Stash(of));
         attempts.insert(rng.below(attempts.len() as u64 + 1) as usize, TAct::AttemptJoin(of));
     }
+    if drop_dead_stream { attempts.push(TAct::DropStream(0)); }
     prog.threads.insert(0, t0);
     prog.phases.push(Phase { name: "attempts_on_panicked_object", wait_pool_exit: true, threads: vec![attempts], ..Default::default() });
 
@@ -124,6 +147,15 @@ pub fn gen_c15(rng: &mut Rng, run_seed: u64, miri: bool) -> Program {
             acts.push(TAct::Op(id));
         }
         ht.push(acts);
+    }
+    if !miri && (drop_dead_stream || rng.chance(1, 4)) {
+        // a pipe on a healthy object: created, fed one item, read, and its output stream dropped
+        let o = 1 + rng.below(healthy as u64) as usize;
+        let item = prog.add_op(o, Kind::PipeItem, Disp::None, vec![Step::Touch]);
+        let p = prog.pipes.len();
+        prog.ops[item].pipe = Some(p);
+        prog.pipes.push(PipeDef { obj: o, through: true, depth: 5, items: vec![item], preloaded: 0, preclosed: false, mpsc: false, register_first: false, keep_waker: false, chain_to: None });
+        ht.push(vec![TAct::PipeCreate(p), TAct::Push(p), TAct::Consume(p, 1), TAct::DropStream(p)]);
     }
     prog.phases.push(Phase { name: "healthy_objects_after_the_panic", threads: ht, ..Default::default() });
 
